@@ -198,6 +198,10 @@ class Ctx:
     def feasible(self, cond=None):
         if cond is not None and z3.is_false(z3.simplify(cond)):
             return False
+        from .smt import fold_check
+        r = fold_check(self.pc + ([cond] if cond is not None else []), FEAS_TIMEOUT_MS)
+        if r is not None and r != z3.unknown:
+            return r == z3.sat
         self.solver.push()
         if cond is not None:
             self.solver.add(cond)
